@@ -2,6 +2,10 @@
 
 package PKGNAME
 
+import "io"
+
+var vIOEOF = io.EOF
+
 // vBytesEq compares two byte slices without control-flow on their contents.
 func vBytesEq(a, b []byte) bool {
 	if len(a) != len(b) {
@@ -52,4 +56,55 @@ func (s *vSink) Write(p []byte) (int, error) {
 	s.got = append(s.got, p[:n]...)
 	s.failAfter = 0
 	return n, vSinkErr{}
+}
+
+// vChunkReader delivers data in transport-chosen pieces.
+//   policy 0: one byte per Read
+//   policy 1: k bytes, then everything else
+//   policy 2: pieces end wherever bit i of mask is set (all 2^(n-1) segmentations for short streams)
+type vChunkReader struct {
+	data   []byte
+	pos    int
+	policy int
+	k      int
+	mask   uint64
+	reads  int
+}
+
+type vEOF struct{}
+
+func (vEOF) Error() string { return "EOF" }
+
+func (c *vChunkReader) Read(p []byte) (int, error) {
+	c.reads++
+	if len(p) == 0 {
+		return 0, nil
+	}
+	rest := len(c.data) - c.pos
+	if rest == 0 {
+		return 0, vIOEOF
+	}
+	n := rest
+	switch c.policy {
+	case 0:
+		n = 1
+	case 1:
+		if c.pos < c.k {
+			n = c.k - c.pos
+		}
+	case 2:
+		n = 1
+		for c.pos+n < len(c.data) && c.mask>>uint(c.pos+n-1)&1 == 0 {
+			n++
+		}
+	}
+	if n > rest {
+		n = rest
+	}
+	if n > len(p) {
+		n = len(p)
+	}
+	copy(p, c.data[c.pos:c.pos+n])
+	c.pos += n
+	return n, nil
 }
